@@ -71,7 +71,7 @@ def plan(tier, seed):
             f"depth {p['depth']}, canonical up to a<->b) + {len([1 for c in base if c['name'].startswith('sharp')])} sharp grammars; "
             f"per state every string of length <= {p['maxlen']}; modes: free = indeterminate weights (Poly_D, D={p['D']}) for cfg(x)/Earley/CKY/materialize "
             "vs the derivation enumerator; num = Boolean, MaxTimes(Fraction), rescaled Earley(float) vs naive fixed point; "
-            f"sched = E2 all agenda tie-break resolutions with <= {p['sched_bound']} deviations; perm = all rule orders x 5 renamings. "
+            f"sched = E2 all agenda tie-break resolutions with <= {p['sched_bound']} deviations; perm = all rule orders x 6 renamings (one of them gives every OCCURRENCE of a nonterminal a new equal-but-not-identical object). "
             "non-trivial = the grammar has a string of non-zero weight within the bound and a non-zero value was compared"
         ),
         "bounds": p,
